@@ -67,8 +67,21 @@ Judge(c, out, exp, err) ==
     ELSE IF exp # e.names THEN "export-names"
     ELSE "ok"
 
+(* the two transcriptions of the metadata plane agree: CacheModel.tla (used by TraceMeta and MetaAgree) computes the same names as *)
+(* the predicates above for every valid configuration                                                                               *)
+CM == INSTANCE CacheModel
+CmNames(c) ==
+    LET M == CM!CmSource(c.vis) IN
+    CASE c.verb = "rename" -> CM!CmRename(M, c.map).names
+      [] c.verb = "select" -> CM!CmSelect(M, c.args).names
+      [] c.verb = "drop" -> CM!CmDrop(M, c.args).names
+      [] c.verb = "mutate" -> CM!CmMutate(M, c.args).names
+      [] c.verb = "summarize" -> CM!CmSummarize(CM!CmGroupBy(M, [i \in DOMAIN c.map |-> c.map[i][1]], FALSE), c.args).names
+SpecsAgree == \A c \in Configs : Expected(c).err = "" => CmNames(c) = Expected(c).names
+
 Recs == IF Mode = "check" THEN ndJsonDeserialize(IOEnv.VERIF_VERBNAMES) ELSE <<>>
 
+ASSUME Mode = "gen" => SpecsAgree
 ASSUME Mode = "gen" => \A c \in Configs : PrintT(ToJson(c))
 ASSUME Mode = "check" => \A i \in DOMAIN Recs : PrintT(ToJson([i |-> i, verdict |-> Judge(Recs[i].c, Recs[i].out, Recs[i].exp, Recs[i].err)]))
 
